@@ -30,7 +30,10 @@ QUERIES = ('x', 'y', 'default', 'zz')
 CONFIGS = [('unset', None), ('ctor-name', 'y'), ('ctor-name', 'nope'),
            ('ctor-name', 'default'), ('ctor-check', '@'), ('ctor-check', '!'),
            ('ctor-check', 'role:r'), ('option', 'y'), ('option', 'nope'),
-           ('option', ''), ('option', None)]
+           ('option', ''), ('option', None),
+           # the service sets its option DEFAULTS in one call, policy file
+           # name and default rule together
+           ('set_defaults', 'y'), ('set_defaults', 'nope')]
 # '+own': the rule set arrives as a Rules object that carries a default rule
 # of its own (an allowing, defined name where there is one) - the enforcer's
 # configuration must still be what decides
@@ -103,6 +106,8 @@ def build(P, parse_rule, ruleset, cfg, route, w):
         kw['default_rule'] = parse_rule(val)
     elif how == 'option':
         overrides['policy_default_rule'] = val
+    elif how == 'set_defaults':
+        return _build_set_defaults(P, parse_rule, ruleset, val, route, w)
     if route == 'file':
         w.write('policy.yaml', world.dumps_policy(ruleset))
         conf = world.new_conf(w.root, **overrides)
@@ -160,6 +165,30 @@ def build(P, parse_rule, ruleset, cfg, route, w):
     enf.set_rules(P.Rules.from_dict(ruleset, default_rule=own),
                   use_conf=False)
     return enf
+
+
+def _build_set_defaults(P, parse_rule, ruleset, val, route, w):
+    from oslo_config import cfg
+    from oslo_policy import opts
+    conf = cfg.ConfigOpts()
+    args = ['--config-dir', w.root] if w else []
+    conf(args, project='verif', default_config_files=[],
+         default_config_dirs=[])
+    try:
+        opts.set_defaults(conf, policy_file='policy.yaml',
+                          policy_default_rule=val)
+        conf.set_override('policy_dirs', [], group='oslo_policy')
+        if w:
+            w.write('policy.yaml', world.dumps_policy(ruleset, 'json'))
+            enf = P.Enforcer(conf)
+            enf.load_rules()
+        else:
+            enf = P.Enforcer(conf, use_conf=False)
+            enf.set_rules(P.Rules.from_dict(ruleset), use_conf=False)
+        return enf
+    finally:
+        cfg.set_defaults(opts._options, policy_file='policy.yaml',
+                         policy_default_rule='default')
 
 
 def run_redefine(acc, P, parse_rule):
@@ -245,6 +274,8 @@ class _Fmt(__import__('logging').Handler):
 
 
 def _row(acc, P, parse_rule, ruleset, cfg, route, via):
+    if cfg[0] == 'set_defaults' and route not in ('file', 'set_rules'):
+        return
     w = world.FileWorld() if route.startswith(('file', 'dir', 'reg')) \
         else None
     # one route runs with the library's debug logging switched on
